@@ -76,9 +76,17 @@ Section Search.
             (* 2. a call that is about to pull does so *)
             let r2 := first_some (fun i b =>
                           match take_ret i rets with
-                          | Some (e, rets') => match step s (APull i (Some e)) with
-                                               | Some s' => dfs f s' pend rets' b
-                                               | None => (None, b) end
+                          | Some (e, rets') =>
+                              (* the call returns [e] in this step: either at this pull, or it first
+                                 finds the log empty, parks, and is woken later *)
+                              match (match step s (APull i (Some e)) with
+                                     | Some s' => dfs f s' pend rets' b
+                                     | None => (None, b) end) with
+                              | (Some s', b') => (Some s', b')
+                              | (None, b') => match step s (APull i None) with
+                                              | Some s' => dfs f s' pend rets b'
+                                              | None => (None, b') end
+                              end
                           | None => match step s (APull i None) with
                                     | Some s' => dfs f s' pend rets b
                                     | None => (None, b) end
